@@ -7,7 +7,7 @@ def nontrivial(r):
     return any(any(row.get("muts") for row in ro.get("rows", [])) for ro in runs)
 
 
-def collect(ctx, rand_n=0):
+def collect(ctx, rand_n=0, extra_vecs=None):
     ctx.tlc("MCVariants", "MC_Variants.cfg" if ctx.quick else "MC_Variants_thorough.cfg", workers=16, timeout=3000)
     res = ctx.tlc("MCVariants", "MC_Variants_AsCoded.cfg", workers=4, expect_violation=True, tag="ascoded", count=False)
     if "Refines" not in res["violations"]:
@@ -21,11 +21,12 @@ def collect(ctx, rand_n=0):
         cls = [v for k, v in enumerate(v for v in vecs if v["kind"] == "indel") if (k + ctx.seed) % 4 == 0]
         vecs = anno + cls
     vecs += kernel.rand_vectors(ctx, "variants", rand_n)
+    vecs += extra_vecs or []
     return kernel.run_vectors(ctx, "variants", vecs, timeout=6000)
 
 
-def run(ctx, prefixes, rand_n=0):
-    obs = collect(ctx, rand_n)
+def run(ctx, prefixes, rand_n=0, extra_vecs=None):
+    obs = collect(ctx, rand_n, extra_vecs)
     rows, fails, _ = kernel.validate_obs(ctx, "ObsVariants", "ObsVariants.cfg", obs, tag="variants", timeout=6000)
     keep = ("panic", "timeout")
     ctx.failures = [f for f in ctx.failures if any(f["clause"].startswith(p) for p in prefixes) or f["clause"] in keep]
